@@ -76,9 +76,9 @@ func VerifH_C17_Template() {
 		c := t[i]
 		verifAssume(c == '$' || c17IsDigit(c) || c == 'x')
 	}
-	g := verifChoose(verifParam("G", 3) + 1)
-	if verifParam("G", 3) >= 12 && g >= 3 {
-		g = 12
+	g := verifChoose(verifParam("G", 3) + 2)
+	if g > verifParam("G", 3) || g > 12 {
+		g = 12 // two-digit group numbers
 	}
 	names := []string{"<g1>", "<g2>", "<g3>", "<g4>", "<g5>", "<g6>", "<g7>", "<g8>", "<g9>", "<g10>", "<g11>", "<g12>"}
 	m := match{value: "<m>", groups: names[:g]}
